@@ -416,3 +416,24 @@ theorem byteEntry_increment {E cap : Nat} (hE : 0 < E) (hc : 0 < cap) (hcap : E 
         omega
 
 end KV.Sort
+
+namespace KV.Sort
+open List
+
+/-- what a `Stream` puts into chain blocks and `WriteAndRecycle` appends to the file is the byte
+sequence written, whatever the block size and the stale content of the last block -/
+theorem stream_write_aux (cap : Nat) (pad : Buf) : ∀ (f : Nat) (bytes file : Buf),
+    writeAndRecycle file (streamToBlocks cap pad f bytes) = file ++ bytes
+  | 0, bytes, file => by
+    simp [streamToBlocks, writeAndRecycle]
+  | f + 1, bytes, file => by
+    simp only [streamToBlocks]
+    split
+    · rename_i h
+      simp only [writeAndRecycle, foldl_cons]
+      have ih := stream_write_aux cap pad f (bytes.drop cap) (file ++ (bytes.take cap).take cap)
+      simp only [writeAndRecycle] at ih
+      rw [ih, take_take, Nat.min_self, append_assoc, take_append_drop]
+    · simp [writeAndRecycle]
+
+end KV.Sort
